@@ -294,7 +294,7 @@ def runRT (i : RtIn) (body : Bytes) (reply : Bytes) (impl : String) : Ans :=
         ++ (if i.envVars.isEmpty then [] else ["envvars"]) ++ (if i.contentLength < 0 then ["cl-neg"] else []) }
   | _ => { model := "rt-result", verdict := "FAIL:result", tags := ["rt"] }
 
-def run (op impl : String) : Ans :=
+def runOne (op impl : String) : Ans :=
   match op.splitOn " " with
   | ["req", p, b, _rk] =>
     match parsePairs p, unrle b with
@@ -330,5 +330,26 @@ def run (op impl : String) : Ans :=
     | some conn => runResp conn impl
     | none => { model := "bad-op", verdict := "skip" }
   | _ => { model := "bad-op", verdict := "skip" }
+
+def knownClass (v : String) : Bool :=
+  ["FAIL:stderr-in-response", "FAIL:nonstdout-in-response", "FAIL:path-info-comma", "FAIL:content-length-negative",
+   "FAIL:body-cut-at-empty-read"].contains v
+
+/-- `rtb a;b;c`: each round trip judged on its own; first unknown failure, else first known one, else ok -/
+def run (op impl : String) : Ans :=
+  if op.startsWith "rtb " then
+    let ops := ((op.drop 4).toString.splitOn ";").map fun o => "rt " ++ (o.drop 3).toString
+    let impls := impl.splitOn "#"
+    let impls := impls ++ List.replicate (ops.length - impls.length) ""
+    let rs := (ops.zip impls).map fun p => runOne p.1 p.2
+    let vs := rs.map (·.verdict)
+    let verdict := match vs.find? (fun v => v.startsWith "FAIL" && !knownClass v) with
+      | some v => v
+      | none => match vs.find? (fun v => v.startsWith "FAIL") with
+        | some v => v
+        | none => if vs.all (· == "skip") then "skip" else "ok"
+    let models := (rs.zip impls).map fun p => if p.1.verdict == "skip" then p.2 else p.1.model
+    { model := "#".intercalate models, verdict := verdict, tags := ["rtb"] ++ (rs.flatMap (·.tags)).eraseDups }
+  else runOne op impl
 
 end BfeVerif.C55
